@@ -16,24 +16,58 @@ Proof. reflexivity. Qed.
 Lemma frag_dict_capacity bs n : dictrb_capacity bs n = capacity bs n.
 Proof. reflexivity. Qed.
 
+(* the bounds of the index draw are the regenerated ARGUMENTS of the randint call of the taken branch *)
 Lemma frag_sample_bounds b :
+  let ub := rb_upper_bound (full b) (cap b) (pos b) in
   sample_bounds b =
-  if rb_sample_not_memopt (memopt b) then (0, rb_upper_bound (full b) (cap b) (pos b))
-  else if full b then (1, cap b) else (0, pos b).
+  if rb_sample_not_memopt (memopt b)
+  then (rb_base_lo (full b) (cap b) (pos b) (nenv b) ub, rb_base_hi (full b) (cap b) (pos b) (nenv b) ub)
+  else if full b
+       then (rb_memopt_full_lo (full b) (cap b) (pos b) (nenv b) ub, rb_memopt_full_hi (full b) (cap b) (pos b) (nenv b) ub)
+       else (rb_memopt_notfull_lo (full b) (cap b) (pos b) (nenv b) ub, rb_memopt_notfull_hi (full b) (cap b) (pos b) (nenv b) ub).
 Proof.
-  unfold sample_bounds, rb_sample_not_memopt, rb_upper_bound.
+  cbn zeta. unfold sample_bounds, rb_sample_not_memopt, rb_upper_bound, rb_base_lo, rb_base_hi, rb_memopt_full_lo, rb_memopt_full_hi,
+    rb_memopt_notfull_lo, rb_memopt_notfull_hi.
   destruct (memopt b); destruct (full b); reflexivity.
 Qed.
 
-(* d = the value drawn by whichever randint call the taken branch makes *)
+(* d = the value drawn by the randint call of the taken branch *)
 Lemma frag_idx_of_draw b d :
   idx_of_draw b d =
   if rb_sample_not_memopt (memopt b) then rb_base_index d
-  else rb_memopt_index (full b) d d (pos b) (cap b).
+  else rb_memopt_index (full b) d (pos b) (cap b).
 Proof.
   unfold idx_of_draw, rb_sample_not_memopt, rb_base_index, rb_memopt_index.
   destruct (memopt b); destruct (full b); reflexivity.
 Qed.
+
+Lemma frag_env_bounds b ub :
+  env_bounds b = (rb_env_lo (full b) (cap b) (pos b) (nenv b) ub, rb_env_hi (full b) (cap b) (pos b) (nenv b) ub) /\
+  env_bounds b = (dictrb_env_lo (full b) (cap b) (pos b) (nenv b) ub, dictrb_env_hi (full b) (cap b) (pos b) (nenv b) ub).
+Proof. split; reflexivity. Qed.
+
+(* every array of _get_samples is gathered at the same (slot, env) pair - the drawn ones; the memory-optimised next
+   observation at ((slot + 1) % capacity, env); the Dict variant reads next observations from next_observations *)
+Lemma frag_gather i ev c :
+  Forall (fun f => f i ev c = i)
+    [rb_gather_obs_slot; rb_gather_act_slot; rb_gather_done_slot; rb_gather_to_slot; rb_gather_rew_slot; rb_gather_next_slot;
+     dictrb_gather_act_slot; dictrb_gather_done_slot; dictrb_gather_to_slot; dictrb_gather_rew_slot; dictrb_gather_obs_slot; dictrb_gather_next_slot] /\
+  Forall (fun f => f i ev c = ev)
+    [rb_gather_obs_env; rb_gather_act_env; rb_gather_done_env; rb_gather_to_env; rb_gather_rew_env; rb_gather_next_env; rb_memopt_next_env;
+     dictrb_gather_act_env; dictrb_gather_done_env; dictrb_gather_to_env; dictrb_gather_rew_env; dictrb_gather_obs_env; dictrb_gather_next_env] /\
+  rb_memopt_next_index i ev c = (i + 1) mod c /\ dictrb_gather_obs_source = 1 /\ dictrb_gather_next_source = 2.
+Proof. repeat split; repeat constructor. Qed.
+
+(* add(): every field is written at slot pos from the argument of the same name (1 obs, 2 next_obs, 3 action, 4 reward, 5 done);
+   the memory-optimised variant writes next_obs into observations[(pos + 1) % capacity] *)
+Lemma frag_add_fields p c :
+  Forall (fun f => f p c = p)
+    [rb_add_obs_slot; rb_add_next_slot; rb_add_act_slot; rb_add_rew_slot; rb_add_done_slot; rb_add_to_slot;
+     dictrb_add_obs_slot; dictrb_add_next_slot; dictrb_add_act_slot; dictrb_add_rew_slot; dictrb_add_done_slot; dictrb_add_to_slot] /\
+  rb_memopt_write_index p c = (p + 1) mod c /\
+  (rb_add_obs_src, rb_memopt_write_src, rb_add_next_src, rb_add_act_src, rb_add_rew_src, rb_add_done_src) = (1, 2, 2, 3, 4, 5) /\
+  (dictrb_add_act_src, dictrb_add_rew_src, dictrb_add_done_src) = (3, 4, 5).
+Proof. repeat split; repeat constructor. Qed.
 
 Lemma frag_done_mask d t : rb_done_mask d t = done_mask d t /\ dictrb_done_mask d t = done_mask d t.
 Proof. unfold rb_done_mask, dictrb_done_mask, done_mask. split; ring. Qed.
@@ -41,7 +75,7 @@ Proof. unfold rb_done_mask, dictrb_done_mask, done_mask. split; ring. Qed.
 (* _get_samples: third component (next observation) through the regenerated branch / index *)
 Lemma frag_get_next b i e :
   snd (fst (fst (get b i e))) =
-  if rb_memopt_next_branch (memopt b) then a_obs b (rb_memopt_next_index i (cap b)) e else a_next b i e.
+  if rb_memopt_next_branch (memopt b) then a_obs b (rb_memopt_next_index i (Z.of_nat e) (cap b)) e else a_next b i e.
 Proof. reflexivity. Qed.
 
 Lemma frag_get_done b i e :
@@ -493,3 +527,17 @@ Proof. unfold size, sample_bounds, reset. cbn [pos full memopt cap]. rewrite and
 
 Lemma frag_base_reset b : (pos (reset b), full (reset b)) = base_reset.
 Proof. reflexivity. Qed.
+
+(* completeness over (index, env) PAIRS: every stored add and every env column is reachable by the two draws *)
+Theorem reach_sample_complete_pairs dict bs n mo ht b0 ops k ev : create dict bs n mo ht = Some b0 ->
+  let b := run b0 ops in let h := recent ops in
+  0 <= k -> (if mo then len h - capacity bs n < k else len h - capacity bs n <= k) -> k < len h -> 0 <= ev < n ->
+  exists d ee, fst (sample_bounds b) <= d < snd (sample_bounds b) /\ fst (env_bounds b) <= ee < snd (env_bounds b) /\
+               idx_of_draw b d = k mod capacity bs n /\ ee = ev.
+Proof.
+  intros H b h Hk0 Hlo Hhi Hev.
+  destruct (reach_sample_complete dict bs n mo ht b0 ops k H Hk0 Hlo Hhi) as (d & Hd & Hi).
+  exists d, ev. split; [exact Hd|]. split; [|split; [exact Hi|reflexivity]].
+  destruct (cfg_run ops b0) as (_ & _ & _ & D). destruct (cfg_create _ _ _ _ _ _ H) as (_ & _ & _ & D').
+  unfold env_bounds. cbn [fst snd]. fold b in D. rewrite D, D'. exact Hev.
+Qed.
